@@ -149,7 +149,9 @@ func ProcessCmap(cmap tables.Cmap, os2FontPage tables.FontPage) (Cmap, UnicodeVa
 	if len(candidates) != 0 {
 		return candidates[0], uv, nil
 	}
-	return nil, nil, errors.New("unsupported cmap table")
+	// no subtable of a supported format (only formats 2 or 8, or no record at all):
+	// as Harfbuzz does, use an empty character map instead of rejecting the font
+	return cmap12(nil), uv, nil
 }
 
 // cmapID groups the platform and encoding of a Cmap subtable.
